@@ -200,7 +200,7 @@ func (in *inst) stmt(s ast.Stmt) []ast.Stmt {
 		case "lock":
 			return []ast.Stmt{in.call("Yield", in.site(s.Pos(), "lock")), s}
 		case "unlock":
-			return []ast.Stmt{s}
+			return []ast.Stmt{s, in.call("Yield", in.site(s.Pos(), "unlock"))}
 		case "do":
 			in.funcLits(s.X)
 			return []ast.Stmt{in.call("Yield", in.site(s.Pos(), "once")), s}
